@@ -90,29 +90,31 @@ def file_entries(rec):
 
 def renumber_flat_history(root, offset):
     """rename the manifests of the (flat) root history to generation numbers + offset and rewrite the chain file
-    accordingly (manifest bytes, and therefore their c4, stay the same).  Returns the new highest number."""
+    accordingly (manifest bytes, and therefore their c4, stay the same).  Returns the new highest number.
+    Nothing is touched when the chain cannot be rewritten (RuntimeError)."""
     import re as _re
+
+    def esc(t):
+        return t.replace("&", "&amp;").replace("<", "&lt;").replace(">", "&gt;").replace("\r", "&#13;")
 
     d = asc_dir(root, ".")
     names = sorted(n for n in os.listdir(d) if n.endswith(".mhl") and not n.startswith("._") and gen_no(n) is not None)
     chain_p = os.path.join(d, CHAIN)
-    with open(chain_p, encoding="utf-8") as f:
-        chain = f.read()
+    with open(chain_p, "rb") as f:
+        chain = f.read().decode("utf-8")
     top = 0
+    renames = []
     for n in sorted(names, key=gen_no, reverse=True):
         no = gen_no(n)
         new = "%04d" % (no + offset) + n[len(n.split("_", 1)[0]) :]
-        os.rename(os.path.join(d, n), os.path.join(d, new))
-        esc = n.replace("&", "&amp;").replace("<", "&lt;").replace(">", "&gt;")
-        nesc = new.replace("&", "&amp;").replace("<", "&lt;").replace(">", "&gt;")
-        if esc not in chain:
-            raise RuntimeError("chain does not list " + n)
-        # the entry of this manifest: sequencenr attribute precedes its <path>
-        pat = _re.compile(r'(<hashlist sequencenr=")%d(">\s*<path>)%s(</path>)' % (no, _re.escape(esc)))
-        chain, k = pat.subn(lambda m: m.group(1) + str(no + offset) + m.group(2) + nesc + m.group(3), chain)
+        pat = _re.compile(r'(<hashlist sequencenr=")%d(">\s*<path>)%s(</path>)' % (no, _re.escape(esc(n))))
+        chain, k = pat.subn(lambda m, no=no, new=new: m.group(1) + str(no + offset) + m.group(2) + esc(new) + m.group(3), chain)
         if k != 1:
-            raise RuntimeError("could not renumber chain entry of " + n)
+            raise RuntimeError("could not renumber chain entry of " + repr(n))
+        renames.append((n, new))
         top = max(top, no + offset)
-    with open(chain_p, "w", encoding="utf-8") as f:
-        f.write(chain)
+    for n, new in renames:
+        os.rename(os.path.join(d, n), os.path.join(d, new))
+    with open(chain_p, "wb") as f:
+        f.write(chain.encode("utf-8"))
     return top
